@@ -119,7 +119,6 @@ func (g *g2) stmt() *Node {
 	return Log(Arr(g.yieldExpr(), g.yieldExpr()))
 }
 
-
 var placements = []string{"global", "function", "eval"}
 
 // GenGeneratorCase draws a generator (or async function) body and a driver
